@@ -1,4 +1,4 @@
-import EG.Query
+import EG.Step
 import EG.Trav
 /-
   Main — line-protocol driver of the mirror model M.
@@ -71,22 +71,65 @@ def parseAttrs (s : String) : Option (List (Nat × Nat)) :=
 
 def errLine (e : Err) : String := "err " ++ e.name
 
-def okW (st : DState) (w : World) (msg : String := "ok") : DState × String :=
-  ({ st with w := w }, msg)
+def showAns : Ans → String
+  | .ok => "ok"
+  | .vertex v => s!"ok V{v}"
+  | .link l => s!"ok L{l}"
+  | .laws L => s!"ok W{L}"
+  | .links ls => "ok " ++ showList (fun l => s!"L{l}") (ls.mergeSort (· ≤ ·))
+  | .nothing => "ok -"
+  | .verts vs => "ok " ++ showList showOptV vs
+  | .err e => errLine e
+  | .bad => "bad-op"
 
-def ofOpt (st : DState) (r : Option World) : DState × String :=
-  match r with
-  | none => (st, errLine .recursion)
-  | some w => okW st w
-
-def ofExc (st : DState) (r : Except Err World) : DState × String :=
-  match r with
-  | .error e => (st, errLine e)
-  | .ok w => okW st w
-
-def vOK (w : World) (v : VId) : Bool := v < w.nV
-def lOK (w : World) (l : LId) : Bool := l < w.nL
-def isUni (w : World) (v : VId) : Bool := v < w.nV && w.vcls v == .UNI
+/-- parse one protocol line into an operation of the structure alphabet -/
+def parseOp (toks : List String) : Option Op :=
+  match toks with
+  | "vertex" :: cls :: opts => do
+    let c ← VCls.ofString? cls
+    let ls ← parseListWith (parseId 'L') (optArg opts "l")
+    let us ← parseListWith (parseId 'V') (optArg opts "u")
+    let attrs ← parseAttrs (optArg opts "a")
+    pure (.newVertex c attrs ls us)
+  | "universe" :: opts => do
+    let ms ← parseListWith (parseId 'V') (optArg opts "m")
+    let L ← parseOptW (if optArg opts "w" == "" then "-" else optArg opts "w")
+    let attrs ← parseAttrs (optArg opts "a")
+    pure (.newUniverse attrs ms L)
+  | ["lawset"] => some .newLaws
+  | ["edge", cls, a, b] => do
+    let c ← LCls.ofString? cls
+    if a == "!" || b == "!" then pure .newEdgeIllTyped else
+    let x ← parseOptV a
+    let y ← parseOptV b
+    pure (.newEdge c x y)
+  | ["nlink", vs] => do
+    let xs ← parseListWith parseOptV (if vs == "." then "" else vs)
+    pure (.newNLink xs)
+  | ["setv1", l, x] => do pure (.setV1 (← parseId 'L' l) (← parseOptV x))
+  | ["setv2", l, x] => do pure (.setV2 (← parseId 'L' l) (← parseOptV x))
+  | ["ladd", l, x] => do pure (.addVertex (← parseId 'L' l) (← parseOptV x))
+  | ["lunlink", l, x] => do pure (.unlinkFrom (← parseId 'L' l) (← parseOptV x))
+  | ["addtolink", v, l] => do pure (.addToLink (← parseId 'V' v) (← parseId 'L' l))
+  | ["rmfromlink", v, l] => do pure (.removeFromLink (← parseId 'V' v) (← parseId 'L' l))
+  | ["uadd", u, v] => do pure (.uniAdd (← parseId 'V' u) (← parseId 'V' v))
+  | ["urem", u, v] => do pure (.uniRemove (← parseId 'V' u) (← parseId 'V' v))
+  | ["vadd", v, u] => do pure (.vAdd (← parseId 'V' v) (← parseId 'V' u))
+  | ["vrem", v, u] => do pure (.vRemove (← parseId 'V' v) (← parseId 'V' u))
+  | ["setlaws", u, L] => do pure (.setLaws (← parseId 'V' u) (← parseOptW L))
+  | ["setapplies", L, u] => do pure (.setAppliesTo (← parseId 'W' L) (← parseOptV u))
+  | ["flag", x] => some (.flag (x == "on"))
+  | "linkft" :: a :: cls :: b :: dd :: _ => do
+    pure (.linkFromTo (← parseId 'V' a) (← LCls.ofString? cls) (← parseId 'V' b) (dd == "1"))
+  | ["unlink", a, b, mode] => do
+    pure (.unlink (← parseId 'V' a) (← parseId 'V' b) (mode != "keep"))
+  | "nbrs" :: v :: dir :: unk :: filt :: rest => do
+    let fault := match rest with | [k] => k.toNat? | _ => none
+    pure (.neighbors (← parseId 'V' v) (← dir.toNat?) (← unk.toNat?) (← parseOptNat filt) fault)
+  | "flinks" :: a :: b :: ds :: unk :: filt :: rest => do
+    let fault := match rest with | [k] => k.toNat? | _ => none
+    pure (.findLinks (← parseId 'V' a) (← parseId 'V' b) (ds == "1") (← unk.toNat?) (← parseOptNat filt) fault)
+  | _ => none
 
 /-! ### graph resolution for traversals: pseudo-vertices for `None` and for raising `neighbors` -/
 
@@ -140,134 +183,12 @@ def step (st : DState) (line : String) : DState × String :=
   | [] => (st, "")
   | ["reset"] => ({ st with w := World.init }, "ok")
   | ["obs"] => (st, obs w)
-  | "vertex" :: cls :: opts =>
-    match VCls.ofString? cls, parseListWith (parseId 'L') (optArg opts "l"),
-          parseListWith (parseId 'V') (optArg opts "u"), parseAttrs (optArg opts "a") with
-    | some c, some ls, some us, some attrs =>
-      if c == .UNI || !(ls.all (lOK w)) || !(us.all (isUni w)) then bad else
-      match M.newVertex M.fuel w c attrs ls us with
-      | .error e => (st, errLine e)
-      | .ok (w, v) => okW st w s!"ok V{v}"
-    | _, _, _, _ => bad
-  | "universe" :: opts =>
-    match parseListWith (parseId 'V') (optArg opts "m"), parseOptW (if optArg opts "w" == "" then "-" else optArg opts "w"),
-          parseAttrs (optArg opts "a") with
-    | some ms, some L, some attrs =>
-      if !(ms.all (vOK w)) || !(match L with | none => true | some x => x < w.nW) then bad else
-      match M.newUniverse M.fuel w attrs ms L with
-      | .error e => (st, errLine e)
-      | .ok (w, v) => okW st w s!"ok V{v}"
-    | _, _, _ => bad
-  | ["lawset"] =>
-    let (w, L) := M.allocLaws w
-    okW st w s!"ok W{L}"
-  | ["edge", cls, a, b] =>
-    match LCls.ofString? cls with
+  | _ =>
+    match parseOp toks with
+    | some op =>
+      let (w', a) := M.step filterTable w op
+      ({ st with w := w' }, showAns a)
     | none => bad
-    | some c =>
-      if c.kind == .nary then bad else
-      if a == "!" || b == "!" then (st, errLine .type) else
-      match parseOptV a, parseOptV b with
-      | some x, some y =>
-        if !((x.all (vOK w)) && (y.all (vOK w))) then bad else
-        match M.newLink M.fuel w c [x, y] with
-        | .error e => (st, errLine e)
-        | .ok (w, l) => okW st w s!"ok L{l}"
-      | _, _ => bad
-  | ["nlink", vs] =>
-    match parseListWith parseOptV (if vs == "." then "" else vs) with
-    | none => bad
-    | some xs =>
-      if !(xs.all fun x => x.all (vOK w)) then bad else
-      match M.newLink M.fuel w .N xs with
-      | .error e => (st, errLine e)
-      | .ok (w, l) => okW st w s!"ok L{l}"
-  | [op, l, x] =>
-    if op == "setv1" || op == "setv2" || op == "ladd" || op == "lunlink" then
-      match parseId 'L' l, parseOptV x with
-      | some l, some x =>
-        if !(lOK w l && x.all (vOK w)) then bad else
-        if op == "setv1" then (if (w.lcls l).kind == .nary then bad else ofExc st (M.setEnd M.fuel w l 0 x))
-        else if op == "setv2" then (if (w.lcls l).kind == .nary then bad else ofExc st (M.setEnd M.fuel w l 1 x))
-        else if op == "ladd" then ofOpt st (M.addVertex M.fuel w l x)
-        else ofOpt st (M.unlinkFrom M.fuel w l x)
-      | _, _ => bad
-    else if op == "addtolink" || op == "rmfromlink" then
-      match parseId 'V' l, parseId 'L' x with
-      | some v, some l =>
-        if !(vOK w v && lOK w l) then bad else
-        if op == "addtolink" then ofOpt st (M.addToLink M.fuel w v l)
-        else ofOpt st (M.removeFromLink M.fuel w v l)
-      | _, _ => bad
-    else if op == "uadd" || op == "urem" then
-      match parseId 'V' l, parseId 'V' x with
-      | some u, some v =>
-        if !(isUni w u && vOK w v) then bad else
-        if op == "uadd" then ofOpt st (M.uniAddVertex M.fuel w u v)
-        else match M.uniRemoveVertex M.fuel w u v with
-          | none => (st, errLine .recursion)
-          | some r => ofExc st r
-      | _, _ => bad
-    else if op == "vadd" || op == "vrem" then
-      match parseId 'V' l, parseId 'V' x with
-      | some v, some u =>
-        if !(isUni w u && vOK w v) then bad else
-        if op == "vadd" then ofOpt st (M.addToUniverse M.fuel w v u)
-        else match M.removeFromUniverse M.fuel w v u with
-          | none => (st, errLine .recursion)
-          | some r => ofExc st r
-      | _, _ => bad
-    else if op == "setlaws" then
-      match parseId 'V' l, parseOptW x with
-      | some u, some L =>
-        if !(isUni w u && (match L with | none => true | some k => k < w.nW)) then bad else
-        ofOpt st (M.setLaws M.fuel w u L)
-      | _, _ => bad
-    else if op == "setapplies" then
-      match parseId 'W' l, parseOptV x with
-      | some L, some u =>
-        if !(L < w.nW && (match u with | none => true | some k => isUni w k)) then bad else
-        ofOpt st (M.setAppliesTo M.fuel w L u)
-      | _, _ => bad
-    else bad
-  | ["flag", x] => okW st { w with caching := x == "on" }
-  | "linkft" :: a :: cls :: b :: dd :: _ =>
-    match parseId 'V' a, LCls.ofString? cls, parseId 'V' b with
-    | some a, some c, some b =>
-      if !(vOK w a && vOK w b) || c.kind == .nary then bad else
-      match M.linkFromTo M.fuel w a c b (dd == "1") with
-      | .error e => (st, errLine e)
-      | .ok (w, l) => okW st w s!"ok L{l}"
-    | _, _, _ => bad
-  | ["unlink", a, b, mode] =>
-    match parseId 'V' a, parseId 'V' b with
-    | some a, some b =>
-      if !(vOK w a && vOK w b) then bad else
-      match M.unlink M.fuel w filterTable a b with
-      | .error e => (st, errLine e)
-      | .ok (w, J) =>
-        okW st w (if mode == "keep" then "ok " ++ showList (fun l => s!"L{l}") (J.mergeSort (· ≤ ·)) else "ok -")
-    | _, _ => bad
-  | "nbrs" :: v :: dir :: unk :: filt :: rest =>
-    match parseId 'V' v, dir.toNat?, unk.toNat?, parseOptNat filt with
-    | some v, some dir, some unk, some filt =>
-      if !(vOK w v) then bad else
-      let fault := match rest with | [k] => k.toNat? | _ => none
-      let (w, r) := M.neighbors w filterTable v dir unk filt fault
-      match r with
-      | .error e => okW st w (errLine e)
-      | .ok l => okW st w ("ok " ++ showList showOptV l)
-    | _, _, _, _ => bad
-  | "flinks" :: a :: b :: ds :: unk :: filt :: rest =>
-    match parseId 'V' a, parseId 'V' b, unk.toNat?, parseOptNat filt with
-    | some a, some b, some unk, some filt =>
-      if !(vOK w a && vOK w b) then bad else
-      let fault := match rest with | [k] => k.toNat? | _ => none
-      match M.findLinks w filterTable a b (ds == "1") unk filt fault with
-      | .error e => (st, errLine e)
-      | .ok J => (st, "ok " ++ showList (fun l => s!"L{l}") (J.mergeSort (· ≤ ·)))
-    | _, _, _, _ => bad
-  | _ => bad
 
 partial def loop (h : IO.FS.Stream) (out : IO.FS.Stream) (st : DState) : IO Unit := do
   let line ← h.getLine
